@@ -70,6 +70,8 @@ PROPS = {
          "checks": {Q: 40000, T: 3200000}, "shards": {Q: 2, T: 16}},
         {"name": "speaker", "pkg": "speaker", "run": "^TestVerifC10Spk$",
          "checks": {Q: 6000, T: 800000}, "shards": {Q: 4, T: 16}},
+        {"name": "exhaustive-views", "pkg": "speaker", "run": "^TestVerifC10Exhaustive$", "rapid": False,
+         "checks": {Q: 1, T: 1}, "shards": {Q: 4, T: 16}},
     ]},
     "C12": {"engines": [
         {"name": "perturb", "pkg": "speaker", "run": "^TestVerifC12Perturb$",
